@@ -153,7 +153,8 @@ _POSITION_METHODS = {"find": 1, "rfind": 1, "index": 1, "rindex": 1, "startswith
 
 def _raw_integer_helpers(f: Func) -> Set[str]:
     """Names of sibling/enclosing local helper functions that return a script integer as it is
-    (`return to_integer(args[i], default) if len(args) > i else default`), i.e. possibly negative."""
+    (`return to_integer(args[i], default) if len(args) > i else default`, or the same with an early
+    `return default`), i.e. possibly negative."""
     out: Set[str] = set()
     g = f.parent
     while g is not None:
@@ -161,10 +162,9 @@ def _raw_integer_helpers(f: Func) -> Set[str]:
             if isinstance(h.node, ast.Lambda):
                 continue
             rets = [r.value for r in h.own_nodes() if isinstance(r, ast.Return) and r.value is not None]
-            if len(rets) != 1:
-                continue
-            v = rets[0]
-            arms = [v.body, v.orelse] if isinstance(v, ast.IfExp) else [v]
+            arms = []
+            for v in rets:
+                arms += [v.body, v.orelse] if isinstance(v, ast.IfExp) else [v]
             if any(isinstance(a, ast.Call) and call_name(a) == "to_integer" for a in arms):
                 out.add(name)
         g = g.parent
